@@ -258,7 +258,7 @@ def evaluate(paths, workdir, tag, drv, known_defs=(), hard=None):
 
 
 W_ELEM, W_BASE = 1, 16
-VIA = {32: "operator[]", 64: "operator*", 128: "elements()", 256: "begin()", 512: "home()", 1024: "front()", 2048: "operator()()"}
+VIA = {32: "operator[]", 64: "operator*", 128: "elements()", 256: "begin()", 512: "home()", 1024: "front()", 2048: "operator()()", 4096: "operator->"}
 
 
 def judge(p, r):
